@@ -129,6 +129,7 @@ type c03World struct {
 	slowDuties bool                    // after the reorg the beacon node takes two seconds over a duty request; the reorg event arrives one second before the end of its slot
 	fastTrack  bool                    // the controller starts a slot's attestations early when the slot's block arrives (vouch's default)
 	evAt       map[phase0.Slot][]int64 // instants at which head events for a slot were delivered
+	waited     bool                    // vouch was started before genesis and waited for it (controller option WaitedForGenesis): the start instant is genesis itself
 	attestDur  int64                   // how long the attester stand-in takes (0: returns at once)
 	inflight   map[phase0.Slot]int     // attestations being carried out by the stand-in
 }
@@ -273,6 +274,24 @@ func c03Units(tier string) []hx.Unit {
 			units = append(units, u)
 		}
 	}
+	// started before genesis: vouch waits and is started at genesis itself, with the controller told so; the duties
+	// of the first slot are then owed a job like any other slot's
+	for _, ap := range [][2]string{{"E", "E"}, {"A", "A"}} {
+		ap := ap
+		w := &c03World{}
+		u := hx.Unit{Name: fmt.Sprintf("C03/controller/genesis-waited/att%s/propB", ap[0]), Cfg: mc.Config{Deviation: true, Horizon: int64(40 * c03SlotDur)}}
+		u.Body = func() {
+			c03Epoch0 = 0
+			w.waited = true
+			c03Body(w, 0, ap, [2]string{"B", "B"}, false)
+		}
+		u.Check = func(r *mc.Result) mc.Verdict {
+			v := c03Check(w, r)
+			c03Epoch0 = 2
+			return v
+		}
+		units = append(units, u)
+	}
 	if tier == "thorough" {
 		// one deviation from the default schedule during start-up and during the handling of one event that
 		// announces changed roots (see c03Body)
@@ -313,8 +332,8 @@ func c03Units(tier string) []hx.Unit {
 }
 
 func c03Body(w *c03World, startAt int64, ap, pp [2]string, windowed bool) {
-	slow := w.slowDuties
-	*w = c03World{attKinds: ap, propKinds: pp, startAt: startAt, reorgAt: -1, slowDuties: slow}
+	slow, waited := w.slowDuties, w.waited
+	*w = c03World{attKinds: ap, propKinds: pp, startAt: startAt, reorgAt: -1, slowDuties: slow, waited: waited}
 	ctx, cancel := mcontext.WithCancel(context.Background())
 	defer cancel()
 	ct := newChainTime(-(int64(c03Epoch0*c03SPE)*int64(c03SlotDur) + startAt), c03SlotDur, c03SPE)
@@ -333,6 +352,7 @@ func c03Body(w *c03World, startAt int64, ap, pp [2]string, windowed bool) {
 	_, err = standardcontroller.New(ctx,
 		standardcontroller.WithFastTrackAttestations(w.fastTrack), standardcontroller.WithFastTrackSyncCommittees(w.fastTrack), standardcontroller.WithFastTrackGrace(c03Grace),
 		standardcontroller.WithLogLevel(zerolog.Disabled),
+		standardcontroller.WithWaitedForGenesis(w.waited),
 		standardcontroller.WithMonitor(nullmetrics.New()),
 		standardcontroller.WithSpecProvider(&specProvider{m: spec}),
 		standardcontroller.WithChainTimeService(ct),
@@ -522,6 +542,10 @@ func c03Check(w *c03World, r *mc.Result) (v mc.Verdict) {
 				return lf, n
 			}
 			if len(calls) == 0 {
+				// started at genesis after waiting for it: the first slot has not passed, its duties need a job
+				if lf0, _ := lastBefore(jobTime, false); w.waited && s == first && len(dutiesAt(lf0)) > 0 {
+					return fail(j.name+"/genesis-slot-duty-without-job", fmt.Sprintf("vouch waited for genesis and started with it; slot %d has a %s duty for %v but was never handled", s, j.name, dutiesAt(lf0)))
+				}
 				lf, _ := lastBefore(jobTime, false)
 				if want := dutiesAt(lf); len(want) > 0 && w.slotAt(lf.at) < s {
 					return fail(j.name+"/future-duty-without-job", fmt.Sprintf("slot %d has a %s duty for %v in the duties last obtained (in slot %d) but was never handled", s, j.name, want, w.slotAt(lf.at)))
@@ -569,7 +593,7 @@ func c03Check(w *c03World, r *mc.Result) (v mc.Verdict) {
 			if fetchSlot < s && c.at != jobTime && !fast {
 				return fail(j.name+"/wrong-time", fmt.Sprintf("slot %d was handed to %s at slot start %+.1fs instead of %+.1fs", s, j.name, float64(c.at-w.slotStart(s))/1e9, float64(j.delay)/1e9))
 			}
-			if fetchSlot == s && nBefore == 1 && lf.at < int64(time.Second) {
+			if fetchSlot == s && nBefore == 1 && lf.at < int64(time.Second) && !w.waited {
 				return fail(j.name+"/current-slot-scheduled-at-startup", fmt.Sprintf("slot %d was in progress when vouch started but was handed to %s", s, j.name))
 			}
 		}
